@@ -72,6 +72,24 @@ Theorem C03_pyramid_same_domain :
   ce g' = ce g /\ di g' = di g /\ d_cube_extent ceilK D g' = d_cube_extent ceilK D g.
 Proof. first [exact (pyramid_same_domain K Kf Kc ceilK leK leK_refl leK_antisym D HD) | exact (pyramid_same_domain K Kf Kc ceilK floorK leK leK_refl leK_antisym D HD)]. Qed.
 
+(* 4b. resample(spacing): center and orientation kept, internal size * new spacing = old physical extent
+       (when the new spacing differs from the old one and no axis is clamped by min_size) *)
+Theorem C03_resample_keeps_extent :
+  forall (f s c : nat -> K) (d : nat -> nat -> K) (a0 : bool) (sp' : nat -> K) (min_size : Z),
+  let g := mkG (vtab D f) (vtab D s) (vtab D c) (tab D D d) a0 in
+  (forall i, (i < D)%nat -> sp' i <> 0) ->
+  let g' := g_resample ceilK leK D (vtab D sp') min_size g in
+  ce g' = ce g /\ di g' = di g /\ acf g' = acf g /\
+  (veqK leK (vtab D sp') (sp g) = false ->
+   (forall i, (i < D)%nat -> leK (zK min_size) (cz (f i) * s i / sp' i) = true) ->
+   sp g' = vtab D sp' /\ vmul (fs g') (sp g') = d_extent ceilK D g).
+Proof.
+  first [ exact (resample_keeps_extent K Kf Kc ceilK leK D HD) | exact (resample_keeps_extent K Kf ceilK leK D HD)
+        | exact (resample_keeps_extent K Kf Kc ceilK floorK leK D HD) | exact (resample_keeps_extent K Kf ceilK floorK leK D HD)
+        | exact (resample_keeps_extent K Kf Kc ceilK leK leK_refl leK_antisym D HD)
+        | exact (resample_keeps_extent K Kf ceilK leK leK_refl leK_antisym D HD) ].
+Qed.
+
 (* 5. crop / pad / narrow / region of interest / center crop / center pad build the new grid through the
       origin= route from a sample of the old one: spacing, direction, flag unchanged and index j of the new
       grid lies exactly where index j + start of the old grid lies *)
